@@ -274,6 +274,40 @@ structure FuncHyp (D : List Name) (p : ABlock) (O : List Name) : Prop where
 def funcHyp (D : List Name) (p : ABlock) (O : List Name) : Bool :=
   liveConsistent p O && declB p && defB D p && retTopB p
 
+/-! ### Additional facts about `_get_block_vars` used by the functional semantics (C02)
+
+For every compound statement: the state tuple has no duplicates (`scope_vars` is built from a set), contains
+only modified names (`basic_scope_vars ⊆ modified`), and — for a conditional — the entries after the first
+`nouts` are not live after the statement (`input_only = basic_scope_vars & live_in - live_out` is sorted last).
+-/
+def nodupB : List Name → Bool
+  | [] => true
+  | x :: xs => !xs.contains x && nodupB xs
+
+mutual
+def HypFS : AStmt → Prop
+  | .ifS i _ t e => i.declared.Nodup ∧ i.declared ⊆ asgB t ++ asgB e ∧ (∀ y ∈ i.declared.drop i.nouts, y ∉ i.liveOut) ∧
+      HypFB t ∧ HypFB e
+  | .whileS i _ b => i.declared ⊆ asgB b ∧ HypFB b
+  | .forS i x _ _ b => i.declared ⊆ x :: asgB b ∧ HypFB b
+  | _ => True
+def HypFB : List AStmt → Prop
+  | [] => True
+  | s :: r => HypFS s ∧ HypFB r
+end
+
+mutual
+def hypFS : AStmt → Bool
+  | .ifS i _ t e => nodupB i.declared && subB i.declared (asgB t ++ asgB e) && disjB (i.declared.drop i.nouts) i.liveOut &&
+      hypFB t && hypFB e
+  | .whileS i _ b => subB i.declared (asgB b) && hypFB b
+  | .forS i x _ _ b => subB i.declared (x :: asgB b) && hypFB b
+  | _ => true
+def hypFB : List AStmt → Bool
+  | [] => true
+  | s :: r => hypFS s && hypFB r
+end
+
 /-! ### Position-indexed annotations of plain `Sem` programs
 `Ann` maps a position to an `Info`.  For a *statement* annotation `a`: `a []` is the statement's own info and
 `fun p => a (j :: p)` annotates its `j`-th sub-block; for a *block* annotation `A`, `fun p => A (k :: p)`
